@@ -407,6 +407,9 @@ func (g *G) idx() string {
 
 // call produces a call to a user function returning t.
 func (g *G) call(t *Ty, depth int) (string, bool) {
+	if g.noGrow > 0 && (t.K == "string" || t.K == "array" || t.K == "map" || t.K == "any") {
+		return "", false // a procedure may return something built from a growable global
+	}
 	var cands []*fn
 	for _, f := range g.funcs {
 		if f.ret != nil && f.ret.Eq(t) && g.callable(f) {
